@@ -390,10 +390,14 @@ fn format_expression_internal(
     }
 }
 
-/// Determines whether the provided [`Expression`] is a brackets string, i.e. `[[string]]`
+/// Determines whether the provided [`Expression`] is (or, once formatted, begins with) a brackets string, i.e. `[[string]]`
 /// We care about this because `[ [[string] ]` is invalid syntax if we remove the whitespace
 pub fn is_brackets_string(expression: &Expression) -> bool {
     match expression {
+        // The brackets string ends up next to the opening bracket when redundant parentheses around it are removed,
+        // or when it is the leftmost operand of a binary expression
+        Expression::Parentheses { expression, .. } => is_brackets_string(expression),
+        Expression::BinaryOperator { lhs, .. } => is_brackets_string(lhs),
         Expression::String(token_reference) => matches!(
             token_reference.token_type(),
             TokenType::StringLiteral {
